@@ -68,6 +68,13 @@ def main():
     def attempt(src, inp):
         obs = ad.run(inp)
         failing = ad.check(inp, obs)
+        if clause == '*':
+            # any clause that is in the given ledger counts
+            led = set(c.rsplit(':', 1)[0] for c in rp.get('ledger_clauses', []))
+            hit = sorted(f for f in failing if f in led or
+                         (f.startswith('noescape') and 'noescape' in led))
+            if hit:
+                failing = set(failing) | set(['*'])
         return obs, failing
     for src, inp in cands:
         if src == 'model-error':
